@@ -117,7 +117,30 @@ Theorem C12_seeded_c01f_releases_state_in_flight_refuted :
     ~ log_due_safe (m_due (mon_of (init pp))) (snd (run step_c01f (init pp) es)).
 Proof. exact c01f_releases_state_in_flight_refuted. Qed.
 
+(** "Cancels what is still running": after the drop of the Ring nothing is queued and whatever
+    is still in flight is a request a cancellation cannot finish (the kernel does not cancel it, or
+    a two-step request that only waits for its notification); so the class H28 holds such
+    operations only. *)
+Theorem C12_ring_drop_leaves_only_uncancelable : ring_drop_leaves_only_uncancelable.
+Proof. exact ring_drop_leaves_only_uncancelable_holds. Qed.
+
+Theorem C12_in_flight_after_ring_drop_is_uncancelable : in_flight_after_ring_drop_is_uncancelable.
+Proof. exact in_flight_after_ring_drop_is_uncancelable_holds. Qed.
+
+(** Seeded change C12-k (a ring set up without IORING_SETUP_SUBMIT_ALL): the kernel stops
+    consuming at a refused submission, the read queued behind it is started by the drain after the
+    blanket cancellation and is in flight, cancelable, when the Ring is gone; with the flag
+    nothing is. *)
+Theorem C12_seeded_c12k_without_submit_all_refuted :
+  k_inflight (ring_drop_kernel consume_stop dims_c12k 3%nat kern_c12k) = [1%nat] /\
+  k_sqq (ring_drop_kernel consume_stop dims_c12k 3%nat kern_c12k) = [] /\
+  cancelable dims_c12k (ring_drop_kernel consume_stop dims_c12k 3%nat kern_c12k) 1%nat = true /\
+  k_inflight (ring_drop_kernel consume_all dims_c12k 3%nat kern_c12k) = [].
+Proof. exact without_submit_all_refuted. Qed.
+
 Check C12_teardown_memory_safe : teardown_memory_safe.
+Check C12_ring_drop_leaves_only_uncancelable : ring_drop_leaves_only_uncancelable.
+Check C12_in_flight_after_ring_drop_is_uncancelable : in_flight_after_ring_drop_is_uncancelable.
 Check C12_teardown_memory_safe_fixed : teardown_memory_safe_fixed.
 Check C12_teardown_log_safe : teardown_log_safe.
 Check C12_teardown_log_safe_fixed : teardown_log_safe_fixed.
@@ -142,3 +165,6 @@ Print Assumptions C12_teardown_of_populations_fixed.
 Print Assumptions C12_seeded_c12c_releases_state_in_flight_refuted.
 Print Assumptions C12_seeded_c12c_uses_released_state_in_drain_refuted.
 Print Assumptions C12_seeded_c01f_releases_state_in_flight_refuted.
+Print Assumptions C12_ring_drop_leaves_only_uncancelable.
+Print Assumptions C12_in_flight_after_ring_drop_is_uncancelable.
+Print Assumptions C12_seeded_c12k_without_submit_all_refuted.
